@@ -17,7 +17,7 @@ REGISTER = True
 TECHNIQUE = ('Hypothesis property-based testing: one-vs-many differential of compute_features_3d / BycycleGroup.fit against '
              'compute_features on the individual signal (axis=(0,1)) or on the flattened slice followed by a reference epoch '
              'partition (axis 0 / 1), over shapes, axis modes, shared / 1-D / 2-D option lists, n_jobs and repeated fits')
-LEVEL_TEXT = ('Generated-input search (480 pool runs quick, 6k thorough) over shapes (n0, n1) in {1,2,3}^2 (size-1 and non-square '
+LEVEL_TEXT = ('Generated-input search (320 pool runs quick, 6k thorough) over shapes (n0, n1) in {1,2,3}^2 (size-1 and non-square '
               'included), pairwise different signals, axis in {0, 1, (0,1)}, options None / dict / per-slice 1-D list / 2-D list, '
               'n_jobs in {1, 2, 5, -1}, function and object API (the object is fit twice with different data in a fraction of cases). '
               'Exact comparison. Sampling, not exhaustive.')
@@ -54,7 +54,8 @@ def strategy(draw, tier):
     return {'fs': band['fs'], 'f_range': band['f_range'], 'sigs': sigs, 'axis': axis, 'mode': mode, 'opts': opts,
             'n_jobs': draw(st.sampled_from([1, 2, 2, 5, -1])), 'return_samples': draw(st.sampled_from([True, True, False])),
             'via': draw(st.sampled_from(['func', 'group'])), 'refit': draw(st.booleans()),
-            'progress': draw(st.sampled_from([None, None, 'tqdm'])), 'layout': draw(st.sampled_from(['C', 'C', 'F', 'T']))}
+            'progress': draw(st.sampled_from([None, None, 'tqdm'])), 'layout': draw(st.sampled_from(['C', 'C', 'F', 'T'])),
+            'delays': draw(st.sampled_from([[], [], [60, 30, 0], [40, 0, 20, 0], [80, 0]])), 'other_object': draw(st.booleans())}
 
 
 def slice_reference(block, fs, fr, kw):
@@ -98,6 +99,21 @@ def check(case, rec):
         arg = gc.materialise(opts)
     else:
         arg = None
+    # perturb worker completion order: delays keyed by the content of what a worker analyses (single signals for
+    # axis=(0,1), flattened slices for axis 0 / 1); earlier slices get the longer delays
+    units = [X[i, j] for i in range(n0) for j in range(n1)] if axis == (0, 1) else \
+            ([X[i].flatten() for i in range(n0)] if axis == 0 else [X[:, j].flatten() for j in range(n1)])
+    delays = case.get('delays') or []
+    gc.install_delays([(u, (delays[k % len(delays)] if delays else 0) / 1000.0) for k, u in enumerate(units)])
+    try:
+        out, models = run_group(case, X, fs, fr, axis, arg, rs, via, opts, n0, n1)
+    finally:
+        gc.remove_delays()
+    return finish_check(case, rec, X, out, models, refs, axis, mode, via, opt_for, n0, n1)
+
+
+def run_group(case, X, fs, fr, axis, arg, rs, via, opts, n0, n1):
+    models = None
     with warnings.catch_warnings():
         warnings.simplefilter('ignore')
         if via == 'func':
@@ -113,7 +129,17 @@ def check(case, rec):
                 other = X[::-1, ::-1][:, :1] if n1 > 1 else X[::-1]
                 with_timeout(lambda: guarded(bg.fit, np.ascontiguousarray(other), fs, fr, axis=axis, n_jobs=case['n_jobs']), 120)
             with_timeout(lambda: guarded(bg.fit, X, fs, fr, axis=axis, n_jobs=case['n_jobs'], progress=case['progress']), 120)
+            if case.get('other_object'):
+                # a second, independent group object fitted on other data must not disturb this one
+                bg2 = guarded(BycycleGroup, center_extrema=o.get('center_extrema', 'peak'), burst_method=o.get('burst_method', 'cycles'),
+                              burst_kwargs=o.get('burst_kwargs'), thresholds=o.get('threshold_kwargs'),
+                              find_extrema_kwargs=o.get('find_extrema_kwargs'), return_samples=rs)
+                with_timeout(lambda: guarded(bg2.fit, np.ascontiguousarray(X[::-1, ::-1]), fs, fr, axis=axis, n_jobs=case['n_jobs']), 120)
             out, models = bg.df_features, bg.models
+    return out, models
+
+
+def finish_check(case, rec, X, out, models, refs, axis, mode, via, opt_for, n0, n1):
     if not isinstance(out, list) or len(out) != n0 or any(not isinstance(r, list) or len(r) != n1 for r in out):
         shape = [len(r) if isinstance(r, list) else type(r).__name__ for r in out] if isinstance(out, list) else type(out).__name__
         raise Violation('result-layout', 'layout %s for array (%d, %d), axis=%r' % (shape, n0, n1, axis))
@@ -140,10 +166,10 @@ def check(case, rec):
     distinct = all(not ref.frames_equal(tabs[a], tabs[b])[0] for a in range(len(tabs)) for b in range(a))
     differing = mode == 'list' and len({gen.case_key_json(opt_for(i, j)) for i in range(n0) for j in range(n1)}) > 1
     nj = 16 if case['n_jobs'] == -1 else case['n_jobs']
-    rec.label('shape:%dx%d' % (n0, n1), 'axis:%s' % (axis,), 'mode:' + mode, 'via:' + via, 'n_jobs:%s' % case['n_jobs'], 'layout:%s' % case.get('layout', 'C'),
+    rec.label('shape:%dx%d' % (n0, n1), 'axis:%s' % (axis,), 'mode:' + mode, 'via:' + via, 'n_jobs:%s' % case['n_jobs'], 'layout:%s' % case.get('layout', 'C'), 'delays' if case.get('delays') else 'no-delays',
               'distinct' if distinct else 'duplicate-tables', 'refit' if (via == 'group' and case['refit']) else 'single-fit')
     rec.nontrivial((n0 != n1 or (n0 >= 2 and n1 >= 2)) and distinct and (differing or nj >= 2))
 
 
-PARTS = [Part('group-3d', check, strategy=strategy, budget={'quick': 480, 'thorough': 6000}, shards={'quick': 16, 'thorough': 16},
+PARTS = [Part('group-3d', check, strategy=strategy, budget={'quick': 320, 'thorough': 6000}, shards={'quick': 16, 'thorough': 16},
               time_cap={'quick': 200, 'thorough': 3000})]
